@@ -15,7 +15,7 @@ def claim(pid, category, engine, technique, text, note, ref):
 
 
 # properties whose check has been validated by the main session (silent on the unchanged tree, evidence valid)
-READY = ["C01", "C02", "C03", "C04", "C05", "C06", "C07", "C08", "C10", "C11", "C12", "C13", "C14", "C15", "C16", "C17", "C18", "C19", "C20"]
+READY = ["C01", "C02", "C03", "C04", "C05", "C06", "C07", "C08", "C09", "C10", "C11", "C12", "C13", "C14", "C15", "C16", "C17", "C18", "C19", "C20"]
 
 
 def load_claims():
